@@ -157,6 +157,9 @@ func RootNode(n Node) *Module {
 // If n is nil or a module could not be find, nil is returned.
 func module(n Node) *Module {
 	m := RootNode(n)
+	if m == nil {
+		return nil
+	}
 	if m.Kind() == "submodule" {
 		m = m.Modules.Modules[m.BelongsTo.Name]
 	}
